@@ -564,15 +564,45 @@ def rule_order(facts, rep):
                 raise Unrecognised(f"Style::{fn}: {ex}")
             plain = fgv == ("none",) and bgv == ("none",) and ulv == ("none",) and eff == 0
             if fn == "render_reset":
-                want = ("ctor", "anstyle::color::NullFormatter", ("str", "" if plain else RESET))
-                if r != want:
-                    bad.append(f"{'plain' if plain else 'styled'}: {r}")
+                # what the returned value displays (its representation — tuple struct, named field, constructor — is its own business)
+                shown = _displayed(facts, r)
+                if shown != ["" if plain else RESET] and not (plain and shown == []):
+                    bad.append(f"{'plain' if plain else 'styled'}: displays {shown} ({str(r)[:60]})")
             else:
                 want_w = [] if plain else [("str", RESET)]
                 want_r = ("ok", ("unit",)) if plain else ("sym", "write-result")
                 if writes != want_w or r != want_r:
                     bad.append(f"{'plain' if plain else 'styled'}: writes {writes}, returns {r}")
         rep.check(not bad, "order", b["path"], "RESET-iff-not-plain", f"the reset form is RESET when self != Style::new() and empty otherwise: {bad[:2]}", loc(b))
+
+
+def _displayed(facts, v):
+    """The pieces a value of one of anstyle's local Display types hands to the formatter (Display::fmt evaluated on it)."""
+    import abseval
+    cands = []
+    if v[0] == "ctor" and isinstance(v[1], str):
+        cands = [v[1]]
+    elif v[0] == "rec":
+        for it in facts.items("anstyle"):
+            if it["dk"] == "Struct" and it.get("variants") and {f_["name"] for f_ in it["variants"][0]["fields"]} == set(v[1]):
+                cands.append(it["path"])
+    outs = []
+    for ty in cands:
+        path = f"<{ty} as core::fmt::Display>::fmt"
+        if path not in facts.crate("anstyle")["_bodies"]:
+            continue
+        got = []
+        sink = lambda a_: (got.append(a_[1]), ("ok", ("unit",)))[1]
+        ev = abseval.Evaluator(facts, "anstyle", {"core::fmt::Formatter::<'a>::write_str": sink, "core::fmt::Write::write_str": sink})
+        try:
+            r = ev.call_fn("anstyle", path, [v, ("sym", "f")])
+        except Unrecognised:
+            continue
+        if r == ("ok", ("unit",)) and all(g[0] == "str" for g in got):
+            outs.append([g[1] for g in got])
+    if len(outs) != 1:
+        raise Unrecognised(f"no single local Display type for the value {str(v)[:80]}")
+    return outs[0]
 
 
 def rule_no_padding(facts, rep, crate, prop):
